@@ -111,13 +111,6 @@ def sanitizeOp : Handler := fun j => do
   | .error .notImplemented => pure (jObj [("err", jStr "NotImplementedError")])
   | .error .value => pure (jObj [("err", jStr "ValueError")])
 
-/-- op `c11.split2`: lines 183-184 -/
-def split2 : Handler := fun j => do
-  let eq ← natList (← field j "eq")
-  match splitEq2 eq with
-  | some (a, b, o) => pure (jObj [("a", jNats a), ("b", jNats b), ("out", jNats o)])
-  | none => pure (jObj [("err", jStr "ValueError")])
-
 def axesOf (j : Json) : Except String Axes :=
   match j with
   | .arr _ => do
@@ -140,6 +133,6 @@ def tdeq : Handler := fun j => do
 
 def handlers : List (String × Handler) :=
   [("c11.plans", plans), ("c11.eval2", eval2), ("c11.single", single),
-   ("c11.sanitize", sanitizeOp), ("c11.split2", split2), ("c11.tdeq", tdeq)]
+   ("c11.sanitize", sanitizeOp), ("c11.tdeq", tdeq)]
 
 end Cotengra.Driver.C11
